@@ -10,6 +10,10 @@ use serde_json::json;
 
 #[derive(Clone, Debug, PartialEq, Eq, Hash, Serialize, Deserialize)]
 pub struct Case {
+    /// history before the PDU under test: complete packets over a small label alphabet (fed to the
+    /// receiver too), resets of both sides, re-use settings changes
+    #[serde(default)]
+    pub pre: Vec<super::c09::PrefixOp>,
     pub reuse: ReuseCfg,
     /// send a complete packet with the same label first (so the first fragment may be substituted)
     pub prime: bool,
@@ -45,7 +49,7 @@ fn strategy(t: Tier) -> BoxedStrategy<Case> {
         1..t.pick(40, 60),
     );
     bx((
-        reuse_cfg(),
+        (reuse_cfg(), prop_oneof![2 => Just(vec![]), 1 => super::c09::prefix()]),
         any::<bool>(),
         (len, pdu_seed()),
         prop_oneof![8 => lab_addr_or_bcast(), 1 => Just(Lab::ReUse)],
@@ -55,9 +59,9 @@ fn strategy(t: Tier) -> BoxedStrategy<Case> {
         (13u16..=4200, 1u16..=4200),
         prop_oneof![3 => Just(0u32), 1 => Just(1u32), 1 => 2u32..70000],
     )
-        .prop_map(|(reuse, prime, (len, seed), lab, ptype, frag_id, schedule, (tail_base, tail_span), storage_extra)| {
+        .prop_map(|((reuse, pre), prime, (len, seed), lab, ptype, frag_id, schedule, (tail_base, tail_span), storage_extra)| {
             let l = lab.len() as u32;
-            Case { reuse, prime: prime || lab == Lab::ReUse, pdu: Pdu { len: len.min(65533 - l), seed }, lab, ptype, frag_id, schedule, tail_base, tail_span, storage_extra }
+            Case { pre, reuse, prime: prime || lab == Lab::ReUse, pdu: Pdu { len: len.min(65533 - l), seed }, lab, ptype, frag_id, schedule, tail_base, tail_span, storage_extra }
         }))
 }
 
@@ -70,6 +74,33 @@ fn check(c: &Case, st: &mut Stats) -> Result<(), String> {
     // the label the receiver must report
     let prime_label = if c.lab == Lab::ReUse { Lab::Six(ALPHA6[0]) } else { c.lab };
     let expect_label = prime_label;
+    // pre-history, mirrored on the receiver
+    for op in &c.pre {
+        match op {
+            super::c09::PrefixOp::Send(i) => {
+                let mut b = vec![0u8; 64];
+                match call_encap(&mut enc, b"pre-history", 200, 0x0800, super::c09::alpha_label(*i), &mut b) {
+                    Ok(Ok(EncapStatus::CompletedPkt(n))) => {
+                        let _ = dec.provision_storage(vec![0u8; 32].into_boxed_slice());
+                        match call_decap(&mut dec, &b[..n as usize]) {
+                            Ok(Ok((DecapStatus::CompletedPkt(..), _))) => {}
+                            o => return st.violation("pre-history-failed", format!("pre-history packet not delivered: {}", show_dec(&o))),
+                        }
+                    }
+                    o => return st.violation("pre-history-failed", format!("pre-history encap: {:?}", o.map_err(|p| p.0))),
+                }
+            }
+            super::c09::PrefixOp::Reset => {
+                enc.reset_last_label();
+                dec.reset_last_label();
+            }
+            super::c09::PrefixOp::Cfg(cfg) => apply_reuse(&mut enc, *cfg),
+        }
+        st.class("with-pre-history");
+    }
+    // the storage for the PDU under test must be the one on top of the free list
+    while dec.new_pdu().is_ok() {}
+    let _ = dec.provision_storage(vec![0u8; storage.max(64)].into_boxed_slice());
     if c.prime {
         let mut b = vec![0u8; 64];
         match call_encap(&mut enc, b"prime", c.frag_id.wrapping_add(1), 0x0800, prime_label, &mut b) {
@@ -229,7 +260,7 @@ pub fn property() -> Property {
             fuzz_decode: Some(crate::fuzzdec::c02_case),
             strategy,
             check,
-            required_classes: &[">=3-packets", "first-label-substituted", "crc-only-end-packet", "buffer>4097", "pdu>4095", "skipped-buffer-mid-train", "explicit-reuse"],
+            required_classes: &[">=3-packets", "with-pre-history", "first-label-substituted", "crc-only-end-packet", "buffer>4097", "pdu>4095", "skipped-buffer-mid-train", "explicit-reuse"],
         })],
     }
 }
